@@ -793,7 +793,8 @@ class PlSqlDialect(AnsiSqlDialect):
         elif ansi_type == "int":
             length = sql_ansi_type[1]
             if length > MAX_INTEGER:
-                result = ("number", length, 0)
+                # The precision is the number of digits needed, not the limit itself.
+                result = ("number", len(str(length)), 0)
 
         return result
 
@@ -1011,7 +1012,7 @@ class TransactSqlDialect(AnsiSqlDialect):
             elif limit <= MAX_BIGINT:
                 result = ("bigint", limit)
             else:
-                result = ("decimal", limit, 0)
+                result = ("decimal", len(str(limit)), 0)
         else:
             result = sql_ansi_type
 
@@ -1334,7 +1335,7 @@ class Db2SqlDialect(AnsiSqlDialect):
             elif length <= MAX_BIGINT:
                 result = ("bigint", length)
             else:
-                result = ("decimal", length)
+                result = ("decimal", len(str(length)))
         return result
 
     def __str__(self):
